@@ -4,6 +4,7 @@ package zzverif
 
 import (
 	"fmt"
+	"slices"
 	"strings"
 	"testing"
 
@@ -409,6 +410,10 @@ type c19RefSpec struct {
 	// identifier (1, 2: two different ones) and a display text
 	Ident int  `json:"ident,omitempty"`
 	Disp  bool `json:"disp,omitempty"`
+	// Reference.type is an element of its own: 0 = as the constructor left it, 1 = absent, 2 = the
+	// type's StructureDefinition URL, 3 = the short name again, 4 = another type's name (the literal
+	// reference decides which resource is named; only the laws are asserted then)
+	Decl int `json:"decl,omitempty"`
 }
 
 type c19IsCase struct {
@@ -425,6 +430,9 @@ func c19GenSpec(s Src) c19RefSpec {
 		r.Ident = 1 + s.Intn(2)
 	}
 	r.Disp = s.Prob(15)
+	if s.Prob(45) {
+		r.Decl = 1 + s.Intn(4)
+	}
 	return r
 }
 
@@ -435,6 +443,18 @@ func (r c19RefSpec) build() *dtpb.Reference {
 	}
 	if r.Disp {
 		ref.Display = &dtpb.String{Value: "shown"}
+	}
+	if r.Form != "frag" && r.Form != "ident" && r.Form != "display" {
+		switch r.Decl {
+		case 1:
+			ref.Type = nil
+		case 2:
+			ref.Type = &dtpb.Uri{Value: "http://hl7.org/fhir/StructureDefinition/" + c19SmallTypes[r.T]}
+		case 3:
+			ref.Type = &dtpb.Uri{Value: c19SmallTypes[r.T]}
+		case 4:
+			ref.Type = &dtpb.Uri{Value: c19SmallTypes[1-r.T]}
+		}
 	}
 	return ref
 }
@@ -494,7 +514,7 @@ func c19RunIs(ctx *Ctx, c c19IsCase) {
 		return
 	}
 	// model: two references that resolve compare equal iff their identities are equal
-	if resolves(a) && resolves(b) && a.GetIdentifier() == nil && b.GetIdentifier() == nil {
+	if resolves(a) && resolves(b) && a.GetIdentifier() == nil && b.GetIdentifier() == nil && c.A.Decl != 4 && c.B.Decl != 4 {
 		ia, _ := reference.IdentityOf(a)
 		ib, _ := reference.IdentityOf(b)
 		va, vb := c.A.V, c.B.V
@@ -519,6 +539,8 @@ func c19RunIs(ctx *Ctx, c c19IsCase) {
 
 type c19CanonCase struct {
 	URL, Version, Fragment string
+	// the components are given as options; their order is the caller's choice
+	FragFirst bool `json:"frag_first,omitempty"`
 }
 
 var c19CanonURLAlpha = strings.Split("abcXYZ019-._~:/?@!$&'()*+,;=%", "")
@@ -532,11 +554,12 @@ func c19GenCanon(s Src) c19CanonCase {
 	if s.Bool() {
 		c.Fragment = s.Str(c19CanonVerAlpha, 1, 10)
 	}
+	c.FragFirst = s.Prob(40)
 	return c
 }
 
 func c19RunCanon(ctx *Ctx, c c19CanonCase) {
-	ctx.Eval(fmt.Sprint(c), c.Version != "" || c.Fragment != "", "stage:canonical")
+	ctx.Eval(fmt.Sprint(c), c.Version != "" || c.Fragment != "", "stage:canonical", fmt.Sprintf("options-reversed:%v", c.FragFirst && c.Version != "" && c.Fragment != ""))
 	g := guard(func() {
 		var opts []canonical.Option
 		want := c.URL
@@ -547,6 +570,9 @@ func c19RunCanon(ctx *Ctx, c c19CanonCase) {
 		if c.Fragment != "" {
 			opts = append(opts, canonical.WithFragment(c.Fragment))
 			want += "#" + c.Fragment
+		}
+		if c.FragFirst {
+			slices.Reverse(opts)
 		}
 		can := canonical.New(c.URL, opts...)
 		if can.GetValue() != want {
